@@ -123,6 +123,7 @@ class Runtime:
         self.preemptions_used = 0
         self.on_step: typing.Callable[[], None] | None = None
         self._fired: set[int] = set()
+        self.on_idle: typing.Callable[[], bool] | None = None  # every task blocked: may the environment move?
         self.phase: typing.Callable[[], str] | None = None
 
     # ------------------------------------------------------------------ api
@@ -307,6 +308,8 @@ class Runtime:
             if not self.ready:
                 if all(t.state == "done" for t in self.tasks):
                     return
+                if self.on_idle is not None and self.on_idle():
+                    continue
                 if self._advance_clock():
                     continue
                 self.deadlocked = [t.name for t in self.tasks if t.state == "blocked"]
